@@ -1157,3 +1157,58 @@ Proof.
   - cbn [jget]. rewrite jget_generate_member by reflexivity.
     exists []. split; [apply parse_print_json|]. split; [reflexivity|]. intros d [].
 Qed.
+
+(** * the file of a diagnostic is the file index carried by the node's position — not the document that was being
+    checked when the diagnostic was produced (an error found inside an #import-ed fragment while the importing
+    document is checked names the fragment's file) *)
+Lemma located_file_is_position_file files e f pos :
+  located_file files e = Some (f, pos) ->
+  e_pos e = Some pos /\ p_builtin pos = false /\ get_file files (p_file pos) = Some f.
+Proof.
+  unfold located_file. destruct (e_pos e) as [q|]; [|discriminate]. destruct (p_builtin q) eqn:B; [discriminate|].
+  destruct (get_file files (p_file q)) eqn:G; [|discriminate]. intro H. inversion H; subst. auto.
+Qed.
+
+(** file store: 0 schema, 1 the fragment file, 2 the importing file.  The checker answers for the *importing* file
+    (index 2) with an error positioned in the fragment file (index 1): every format names the fragment file *)
+Definition imported_fragment_example (f : fmt) : proj :=
+  mk_proj (s "/w") [s "check"] f CfgOk [] false
+    [mk_schf (s "/w/schema/a.graphql") (s "type Query { a: Int }
+") None] []
+    [mk_opf (s "/w/ops/imp_frags.graphql") (s "# fragments
+#
+#
+fragment F on Query {
+  a @include(if: $v)
+}
+") None None None [] SOk;
+     mk_opf (s "/w/ops/imp.graphql") (s "#import F from ""./imp_frags.graphql""
+query Q { ...F }
+") None None None [mkerr (s "Variable '$v' is not defined") (Some (mkpos 4 18 1 false)) []] SOk]
+    None [] [] (mk_gencfg WithLoaderTS50 (Some (s "out/schema.d.ts")) None None false false) SOk SOk SOk.
+
+Example imported_fragment_diagnostic_names_fragment_file :
+  (match run (imported_fragment_example Json) with
+   | Exit 1 out _ [] =>
+       match parse_json out with
+       | Some t => option_map (map (fun d => (d_kind d, d_path d, d_line d, d_col d))) (json_diags t)
+                   = Some [ (Some false, s "/w/ops/imp_frags.graphql", 4, 18) ]
+       | None => False
+       end
+   | _ => False
+   end)
+  /\ (match run (imported_fragment_example Rdjson) with
+      | Exit 1 out _ [] =>
+          match parse_json out with
+          | Some t => option_map (map (fun d => (d_path d, d_line d, d_col d))) (rdjson_diags t)
+                      = Some [ (s "/w/ops/imp_frags.graphql", 4, 18) ]
+          | None => False
+          end
+      | _ => False
+      end)
+  /\ (match run_texts (imported_fragment_example Human) with
+      | Some (1, texts) => flat_map (locations_of (s "/w/ops/imp_frags.graphql")) texts = [(5, 19)]
+                           /\ flat_map (locations_of (s "/w/ops/imp.graphql")) texts = []
+      | _ => False
+      end).
+Proof. vm_compute. repeat split. Qed.
